@@ -5,7 +5,7 @@ import os
 VERIF = os.path.dirname(os.path.dirname(os.path.abspath(__file__)))
 
 HOOK_COMMITS = ["b9d4bd0", "034d117", "c156e58"]
-FIX_COMMITS = ["d307ba7", "1245628", "e2789dc", "37d0178", "8d97c84", "106b808", "4ace02c", "398b1f9", "8e20502", "758bf79", "bcb9d1c", "736daa9"]
+FIX_COMMITS = ["d307ba7", "1245628", "e2789dc", "37d0178", "8d97c84", "106b808", "4ace02c", "398b1f9", "8e20502", "758bf79", "bcb9d1c", "736daa9", "680eb52"]
 
 TRUST = ("TLC 1.8 and the TLA+ reference modules (cross-validated against gcc 12 / gfortran / git where an "
          "external tool exists); the Python harness only materialises TLC-generated cases, reformats traces and "
@@ -101,6 +101,18 @@ CHECKS["C07"] = dict(
          "exact rational (rel. tol. 1e-9); printed summary metrics/rows and the clustering distance matrix are parsed "
          "back. Floating-point rounding itself is outside the technique.",
     design="3/C07")
+
+CHECKS["C06"] = dict(
+    technique="TLA+ definitions of the three reports over a per-line attribution (Reports.tla on top of PreprocCore and "
+              "Metrics); TLC checks the report identities on generated scenarios and prints the expected summary table, "
+              "tree rows and coverage partition; scenarios replayed through the three CLIs and parsed back",
+    text="For every TLC-simulated scenario Reports.tla states what the summary table, every tree row (unpruned, pruned, "
+         "depth-limited) and the coverage export must show, and TLC checks the identities (rows partition the lines, "
+         "directory = sum of children, root = summary, prune drops exactly unused files, used/unused partition) on that "
+         "attribution; the real `codebasin -R summary`, cbi-tree (--prune, -L) and cbi-cov are run on the same "
+         "materialised tree (with symlinks and a zero-platform analysis) and their parsed outputs compared with the "
+         "specification's expectation and with get_setmap. Sampled (simulation), not exhaustive.",
+    design="3/C06")
 
 PENDING_REASON = "check not built yet (build in progress; see DESIGN.md section 7)"
 
